@@ -66,6 +66,15 @@ func (c *Ctx) basicLatinModel() (blProblems, *ast.FuncDecl) {
 		add("signature", "no paths")
 		return pr, fd
 	}
+	// the end of the block written either way: x <= 127 is x < 128, x > 127 is x >= 128
+	for _, p := range paths {
+		for k := range p {
+			t := p[k].Text
+			t = strings.ReplaceAll(t, "<=127", "<128")
+			t = strings.ReplaceAll(t, ">127", ">=128")
+			p[k].Text = t
+		}
+	}
 	// the table: the named result, or the returned local
 	tbl := ""
 	if fd.Type.Results != nil && len(fd.Type.Results.List) == 1 && len(fd.Type.Results.List[0].Names) == 1 {
